@@ -27,10 +27,10 @@ pub fn count_spaces_after_last_newline(s: &str, i: usize) -> usize {
         "Position i is not a valid UTF-8 boundary"
     );
 
-    // Find the last newline (`\n`) before position `i`
-    if let Some(pos) = s[..i].rfind('\n') {
+    // Find the last newline before position `i` (any of Typst's newline characters)
+    if let Some((pos, newline)) = s[..i].char_indices().rfind(|(_, c)| typst_syntax::is_newline(*c)) {
         // Get the substring after the newline and up to position `i`
-        let after_newline = &s[pos + 1..i];
+        let after_newline = &s[pos + newline.len_utf8()..i];
         // Count the number of consecutive spaces in the substring
         after_newline.chars().take_while(|&c| c == ' ').count()
     } else {
